@@ -2,6 +2,8 @@ use crate::core::*;
 pub mod unify;
 pub mod parse;
 pub mod search;
+pub mod builtins;
+pub mod lists;
 
 pub fn make(prop: &str, tier: Tier, seed: u64) -> Option<Box<dyn Workload>> {
     Some(match prop {
@@ -15,6 +17,12 @@ pub fn make(prop: &str, tier: Tier, seed: u64) -> Option<Box<dyn Workload>> {
         "C04" => Box::new(search::Search::new(search::Which::C04, tier, seed)),
         "C05" => Box::new(search::Search::new(search::Which::C05, tier, seed)),
         "C11" => Box::new(search::Search::new(search::Which::C11, tier, seed)),
+        "C12" => Box::new(builtins::C12::new(tier, seed)),
+        "C13" => Box::new(builtins::C13::new(tier, seed)),
+        "C14" => Box::new(builtins::C14::new(tier, seed)),
+        "C15" => Box::new(Compose { parts: vec![Box::new(lists::C15Direct::new(tier, seed)), Box::new(builtins::ListBips::new(builtins::ListProp::C15, tier, seed))] }),
+        "C16" => Box::new(builtins::ListBips::new(builtins::ListProp::C16, tier, seed)),
+        "C17" => Box::new(builtins::ListBips::new(builtins::ListProp::C17, tier, seed)),
         "C18" => Box::new(parse::C18::new(tier, seed)),
         _ => return None,
     })
